@@ -405,6 +405,8 @@ def gen_id(g):
     """Rearrangements: permutation, (un)grouping, squeeze, broadcast, diagonal, concat/split, ellipsis."""
     rng = g.rng
     mode = rng.random()
+    if mode < 0.05:
+        return gen_id_concat2(g)
     if mode < 0.18:
         return gen_id_concat(g)
     if mode < 0.33:
@@ -550,6 +552,47 @@ def gen_id_concat(g):
         outs = [with_shared([cat], order2)]
     kw = make_kwargs(rng, ins, outs)
     return _case("id", "id", show_op(ins, outs), ins, outs, kw, tags={"concat-" + direction} | tags_of(list(ins) + list(outs)))
+
+
+def gen_id_concat2(g):
+    """Block assembly / splitting with TWO concatenated axes in one tensor (np.block style):
+    'a c, a d, b c, b d -> (a + b) (c + d)'. The sub-tensors are ordered lexicographically, the first
+    concatenated axis varying slowest."""
+    rng = g.rng
+    names = rng.sample(NAMES, 4)
+    sz = [rng.choice([1, 2, 3]) for _ in range(4)]
+    if rng.random() < 0.5:
+        sz = [rng.choice([2, 3])] * 4  # equal blocks: a mis-ordered assembly keeps every shape
+    a, b, c, d = [Ax(n, s) for n, s in zip(names, sz)]
+    rows, cols = [a, b], [c, d]
+    extra = []
+    if rng.random() < 0.3:
+        free = [n for n in NAMES if n not in names]
+        extra = [Ax(free[0], rng.choice([1, 2]))]
+    blocks = []
+    for r in rows:
+        for c_ in cols:
+            items = [r, c_] + extra
+            if rng.random() < 0.3:
+                rng.shuffle(items)
+            blocks.append(tuple(items))
+    big = [Cat((a, b)), Cat((c, d))] + extra
+    if rng.random() < 0.3:
+        big = [big[1], big[0]] + extra
+        blocks = [blocks[0], blocks[2], blocks[1], blocks[3]]  # first concatenated axis of `big` varies slowest
+    big = tuple(big)
+    direction = rng.choice(["assemble", "split", "roundtrip"])
+    if direction == "assemble":
+        ins, outs = blocks, [big]
+    elif direction == "split":
+        ins, outs = [big], blocks
+    else:
+        ins, outs = [big], [tuple(reversed(big[:2])) + tuple(extra)]
+        # re-assembled with the two concatenated axes exchanged: sub-tensors pair up in lexicographic order
+        # of each side, so this is only the identity up to the order of blocks -> keep it simple: same order
+        outs = [big]
+    kw = make_kwargs(rng, ins, outs)
+    return _case("id", "id", show_op(ins, outs), ins, outs, kw, tags={"concat2-" + direction} | tags_of(list(ins) + list(outs)))
 
 
 def gen_id_ellipsis(g):
@@ -871,6 +914,11 @@ def gen_update(g, op=None):
     ncoord = 1 if nb == 1 or rng.random() < 0.6 else 2
     counts = [nb] if ncoord == 1 else [1, 1]
     extra = [Ax(n, rng.choice([1, 2, 2, 3])) for n in ["p", "q"][: rng.randint(0, 2)]]
+    cse_groups = rng.random() < 0.2
+    if cse_groups:
+        # vectorised axes that are flattened groups whose inner lengths are never given: einx treats each
+        # group as one axis (common-subexpression elimination); the result does not depend on the factorisation
+        extra = [Grp((Ax(n + "1", a), Ax(n + "2", b))) for n, (a, b) in zip(["p", "q"], [rng.choice([(1, 2), (2, 1), (2, 2), (1, 3)]) for _ in range(2)])]
     coords, kinds = [], ["int"]
     for c in counts:
         cv = [v for v in vec if rng.random() < 0.6] + [x for x in extra if rng.random() < 0.7]
@@ -904,6 +952,11 @@ def gen_update(g, op=None):
     if (cn | un) - tn:
         tags.add("axes-absent-from-output")
     kw = make_kwargs(rng, ins, [e_out])
+    if cse_groups:
+        kw = {k: v for k, v in kw.items() if k not in ("p1", "p2", "q1", "q2")}
+        tags.add("cse-groups")
+        if not any(isinstance(x, Grp) and x in extra for e in coords for x in e) or not any(isinstance(x, Grp) and x in extra for x in e_u):
+            raise ValueError("cse group must constrain both coordinates and updates")
     return _case(op, "update", desc, ins, [e_out], kw, kinds=kinds, tags=tags | tags_of(ins + [e_out]) | {f"coords-{ncoord}"})
 
 
